@@ -9,6 +9,10 @@ Families (each a generator + a monitor that judges the implementation's observat
               direct drive of H2Protocol compared with HC.Proto.H2Lim (`c18.h2`), and end to end on both workers.
   h2lim       advertised SETTINGS, one stream too many, header blocks of size-1 / exactly / +1 (name + value + 32), from a
               client that ignores the advertised settings; direct and end to end.
+  push        HTTP/2 server push (`http.response.push` from applications of served streams): accepted, refused (client sent
+              ENABLE_PUSH = 0, push from a pushed stream, after close_connection(), after the stream's own response) - the
+              request counter (every accepted push counts twice), the request maximum and GOAWAY around it; direct drive
+              compared op by op with HC.Proto.H2Lim (`Op.push accepted`), and end to end on both workers.
   recycle     WorkerContext.mark_request of both workers (unit), and the whole worker (harness/core/worker.py) with
               max_requests in {None (off), 0, 1, 3} x jitter in {0, 2} over several seeds: the request index at which
               worker_serve begins its exit.
@@ -68,7 +72,9 @@ SPEC = {
                   "the real clock with >= 1 s slack.",
     "rule": "family x limit value in {0, 1, 2, default, boundary triple} x sequence that approaches / hits / exceeds it x segmentation "
             "class x layer (direct drive / end to end on asyncio and trio / whole worker); distinct = (family, layer, limit, shape, "
-            "segmentation); non-trivial = the sequence reaches the limit (hits or exceeds it)",
+            "segmentation); non-trivial = the sequence reaches the limit (hits or exceeds it); family push: limit x requests per read x "
+            "which application pushes how often after which read x what the client said about push x opening (h2 / h2c), distinct = "
+            "(limit, reads, client setting, opening, outcomes of the push messages)",
     "trusted": ["h11 0.16 byte parser; hpack 4.x decoder accounting; h2 4.4 stream accounting and connection state machine",
                 "hyperframe frame parser + hpack decoder as the independent HTTP/2 client oracle", "random.randint inclusive bounds"],
     "partial": ["F47 (known): HTTP/2 requests sharing a read with request keep_alive_max_requests+1 are all served "
@@ -917,6 +923,8 @@ def _judge_push(ctx: Ctx, case: dict, cfgm: dict, res: dict, sig: dict) -> None:
     application instance (GET, the pushed path, HTTP/2) is started for it; a refused push starts nothing and writes nothing"""
     L = cfgm["keep_alive_max"]
     enable = (case.get("client") or {}).get("enable_push")
+    if case.get("h2c"):
+        sig = {**sig, "opening": "h2c", "limit": L}
     # (2) per push message
     want_next = 2
     for e in res["push_log"]:
